@@ -10,12 +10,12 @@ _lin = I + "checker/linearity_checker.py"
 M = {
     "C01": [
         ("branch-sum rows handed over in first-use order", _cfgc,
-         "[v for v in sort_vars(row) if v.ty.droppable]", "[v for v in row if v.ty.droppable]", "R-C01.6"),
+         "[v for v in sort_vars(row) if not v.ty.linear]", "[v for v in row if not v.ty.linear]", "R-C01.6"),
         ("regular outputs taken from the last successor's row only when it differs", _cfgc,
-         "            outputs = [v for v in first if not v.ty.droppable]", "            outputs = [v for v in rest[-1] if not v.ty.droppable][1:]", "R-C01.6"),
+         "            outputs = [v for v in first if v.ty.linear]", "            outputs = [v for v in rest[-1] if v.ty.linear][1:]", "R-C01.6"),
         ("benign: rows sorted before the comprehension", _cfgc,
-         "                output_vars=[\n                    [v for v in sort_vars(row) if v.ty.droppable]\n                    for row in bb.sig.output_rows\n                ],",
-         "                output_vars=[\n                    [v for v in srow if v.ty.droppable]\n                    for srow in [sort_vars(row) for row in bb.sig.output_rows]\n                ],", None),
+         "                output_vars=[\n                    [v for v in sort_vars(row) if not v.ty.linear]\n                    for row in bb.sig.output_rows\n                ],",
+         "                output_vars=[\n                    [v for v in srow if not v.ty.linear]\n                    for srow in [sort_vars(row) for row in bb.sig.output_rows]\n                ],", None),
     ],
     "C11": [
         ("generated struct methods registered only once per session", _eng,
